@@ -6,6 +6,7 @@ mod dump;
 mod dynser;
 mod exec;
 mod exec_ocf;
+mod fuzzdec;
 mod panics;
 mod scan;
 mod sink;
